@@ -307,7 +307,7 @@ func runParent(prop, tier string, seed int64, nOverride, procs int) int {
 			"blocks":              total.Blocks,
 			"counters":            total.Counters,
 			"known_findings_seen": knownSeen,
-			"notes":               capNotes(total.Notes, 20),
+			"notes":               capNotes(extraNotes(total.Notes), 20),
 			"verdict":             verdict(exit, inconclusive),
 		},
 	}
@@ -433,4 +433,12 @@ func runSharded(plan eng.Plan, tier string, seed int64, from, to, procs int, scr
 	}
 	wg.Wait()
 	return total
+}
+
+// extraNotes prepends what the check script measured outside this process (e.g. the sanitizer pass of C11).
+func extraNotes(n []string) []string {
+	if x := os.Getenv("VERIF_EXTRA_NOTE"); x != "" {
+		return append([]string{x}, n...)
+	}
+	return n
 }
